@@ -145,20 +145,23 @@ SplineLaw(x, y, m2, periodic) ==
         ELSE m2.num[1] = 0 /\ m2.num[n] = 0
 
 (* ------------------------------ angles and dihedrals on the lattice ---------------------- *)
-(* angular grids have their knots at multiples of 30 degrees, where cos^2 is rational: a = 0..6 <-> 0, 30, .., 180 deg *)
-AKnotCos2 == << <<1, 1>>, <<3, 4>>, <<1, 4>>, <<0, 1>>, <<1, 4>>, <<3, 4>>, <<1, 1>> >>
-AKnotSgn(a) == IF a < 3 THEN 1 ELSE IF a = 3 THEN 0 ELSE -1
+(* angular grid knots are given in degrees; cos(knot) is bracketed by rationals lo/100 <= cos <= hi/100 (exact where the
+   cosine is rational).  All decisions "the variable lies strictly inside (knot_a, knot_b)" are made CONSERVATIVELY with
+   these brackets in integer arithmetic: a site is counted only if it is certainly inside. *)
+CosBr(deg) == CASE deg = 0 -> <<100, 100>> [] deg = 20 -> <<93, 94>> [] deg = 30 -> <<86, 87>> [] deg = 60 -> <<50, 50>>
+                [] deg = 80 -> <<17, 18>> [] deg = 90 -> <<0, 0>> [] deg = 100 -> <<-18, -17>> [] deg = 120 -> <<-50, -50>>
+                [] deg = 150 -> <<-87, -86>> [] deg = 160 -> <<-94, -93>> [] deg = 180 -> <<-100, -100>>
 SgnI(v) == IF v > 0 THEN 1 ELSE IF v < 0 THEN -1 ELSE 0
-\* compare cos(theta) = d / sqrt(N) with cos(a * 30 deg):  -1, 0, 1
-CmpCos(d, N, a) ==
-  LET sd == SgnI(d)  ks == AKnotSgn(a)  q == AKnotCos2[a + 1]
-      m == SgnI(d * d * q[2] - q[1] * N)
-  IN IF sd # ks THEN (IF sd > ks THEN 1 ELSE -1) ELSE IF sd = 0 THEN 0 ELSE IF sd > 0 THEN m ELSE -m
-AngGT(d, N, a) == CmpCos(d, N, a) < 0            \* theta > a * 30 deg  (theta in [0, 180])
-AngLT(d, N, a) == CmpCos(d, N, a) > 0
-\* signed angle phi = sg * acos(d / sqrt(N)), sg = +-1, against a * 30 deg, a in -6..6 (non-degenerate: 0 < acos < 180)
-PhiGT(sg, d, N, a) == IF sg > 0 THEN (a <= 0 \/ AngGT(d, N, a)) ELSE (a < 0 /\ AngLT(d, N, -a))
-PhiLT(sg, d, N, a) == IF sg > 0 THEN (a > 0 /\ AngLT(d, N, a)) ELSE (a >= 0 \/ AngGT(d, N, -a))
+\* d / sqrt(N) < p / 100   (N > 0)
+CosLT(d, N, p) == IF d < 0 /\ p >= 0 THEN TRUE ELSE IF d >= 0 /\ p <= 0 THEN FALSE
+                  ELSE IF d > 0 THEN d * d * 10000 < p * p * N ELSE d * d * 10000 > p * p * N
+CosGT(d, N, p) == IF d > 0 /\ p <= 0 THEN TRUE ELSE IF d <= 0 /\ p >= 0 THEN FALSE
+                  ELSE IF d > 0 THEN d * d * 10000 > p * p * N ELSE d * d * 10000 < p * p * N
+AngGT(d, N, deg) == CosLT(d, N, CosBr(deg)[1])        \* theta = acos(d/sqrt N) certainly > deg
+AngLT(d, N, deg) == CosGT(d, N, CosBr(deg)[2])        \* certainly < deg
+\* signed angle phi = sg * acos(d / sqrt(N)), sg = +-1, against deg in -180..180 (non-degenerate: 0 < acos < 180)
+PhiGT(sg, d, N, deg) == IF sg > 0 THEN (deg <= 0 \/ AngGT(d, N, deg)) ELSE (deg < 0 /\ AngLT(d, N, -deg))
+PhiLT(sg, d, N, deg) == IF sg > 0 THEN (deg > 0 /\ AngLT(d, N, deg)) ELSE (deg >= 0 \/ AngGT(d, N, -deg))
 \* one interaction instance: beads of molecule m -> [sg, d, N] with variable = sg * acos(d / sqrt N), as the real
 \* IAngle / IDihedral define it (angle: vectors from the middle bead; dihedral: v_k = r_{k+1} - r_k, n1 = v1 x v2,
 \* n2 = v2 x v3, sign = -1 iff v1 . n2 < 0)
@@ -231,7 +234,7 @@ RunId(k) == IF k = 0 THEN "full" ELSE "blk" \o ToString(k)
 Build(s) ==
   LET R0  == StreamN(s, 32)
       l0  == Draw(R0, 10, 0, 9)
-      lay == IF l0 < 3 THEN 0 ELSE IF l0 < 6 THEN 1 ELSE 2             \* 8, 9: angle / dihedral instances (BuildBonded)
+      lay == IF l0 < 2 THEN 0 ELSE IF l0 < 4 THEN 1 ELSE 2             \* 6..9: angle / dihedral instances (BuildBonded)
       b   == IF lay = 0 THEN Draw(R0, 1, 1, 3) ELSE Draw(R0, 1, 2, 3)
       K   == Draw(R0, 2, 1, 3)
       rem == IF b > 1 THEN Draw(R0, 3, 0, 1) ELSE 0
@@ -246,6 +249,7 @@ Build(s) ==
                                    ELSE [id |-> RunId(r - 1), first |-> (r - 2) * b + 1, nframes |-> b, tf |-> FALSE]]
   IN [k |-> "fm", s |-> s, layout |-> lay, nb |-> g.nb, types |-> [i \in 1..g.nb |-> TypeOf(g, i)],
       gden |-> g.gden, gmin |-> g.gmin, gstep |-> g.gstep, n |-> g.n, osub |-> Draw(R0, 12, 1, 2),
+      nout |-> (g.n - 1) * Draw(R0, 12, 1, 2) + 1,
       noisy |-> g.noisy, tf |-> tf,
       inter |-> [c \in 1..NInter(g) |->
                    LET x == [k \in 1..g.n |-> Knot(g, k)]
@@ -268,8 +272,8 @@ BlockFrames(q, k) == ((k - 1) * q.b + 1)..(k * q.b)
    sum of the knot values 0).  No other interaction: every bead belongs to one interaction instance, so zero net
    forces force G(var) = 0 at every instance whose gradient exists (SiteOK).                                      *)
 MolBeads(lay) == IF lay = 3 THEN 3 ELSE 4
-ALo(q) == q.amin
-AHi(q) == q.amin + (q.n - 1) * q.astep
+ALo(q) == q.kdeg[1]
+AHi(q) == q.kdeg[Len(q.kdeg)]
 MolPos(fr, q, m) == [k \in 1..q.mb |-> fr.pos[(m - 1) * q.mb + k]]
 SiteOf(fr, q, m) == IF q.layout = 3 THEN AngSite(MolPos(fr, q, m)) ELSE DihSite(MolPos(fr, q, m))
 RECURSIVE MolChain(_, _, _, _)
@@ -303,10 +307,18 @@ BuildBonded(s, lay) ==
       NF  == K * b + rem
       n   == IF lay = 3 THEN 4 ELSE 5
       nm  == IF lay = 3 THEN Draw(R0, 6, 3, 6) ELSE Draw(R0, 6, 4, 6)
-      q0  == [layout |-> lay, mb |-> MolBeads(lay), nm |-> nm, nb |-> nm * MolBeads(lay),
-              amin |-> IF lay = 3 THEN Draw(R0, 4, 1, 2) ELSE -6, astep |-> IF lay = 3 THEN 1 ELSE 3, n |-> n,
+      gv  == IF lay = 4 THEN (IF Draw(R0, 4, 0, 2) = 0 THEN 1 ELSE 2) ELSE Draw(R0, 4, 1, 2)
+      \* knots in degrees; step of the options file; spline unit; knots in spline units (relative to the first one).
+      \* dihedral variant 2: step 80 degrees does not divide 360, GenerateGrid puts the last knot at max = 180: the last
+      \* interval is 120 degrees long (non-equidistant periodic grid)
+      kdeg == IF lay = 3 THEN (IF gv = 1 THEN <<30, 60, 90, 120>> ELSE <<60, 90, 120, 150>>)
+              ELSE (IF gv = 1 THEN <<-180, -90, 0, 90, 180>> ELSE <<-180, -100, -20, 60, 180>>)
+      stepdeg == IF lay = 3 THEN 30 ELSE IF gv = 1 THEN 90 ELSE 80
+      udeg == IF lay = 3 THEN 30 ELSE IF gv = 1 THEN 90 ELSE 40
+      osub == Draw(R0, 12, 1, 2)
+      q0  == [layout |-> lay, mb |-> MolBeads(lay), nm |-> nm, nb |-> nm * MolBeads(lay), kdeg |-> kdeg, n |-> n,
               noisy |-> Draw(R0, 7, 0, 2) = 0, tf |-> Draw(R0, 11, 0, 2) = 0]
-      x   == [k \in 1..n |-> (q0.amin \div q0.astep) + (k - 1)]          \* knots in spline units of astep * 30 degrees
+      x   == [k \in 1..n |-> (kdeg[k] - kdeg[1]) \div udeg]
       y0  == [k \in 1..n |-> Draw(R0, 12 + k, -4, 8)]
       y   == IF lay = 3 THEN y0
              ELSE [k \in 1..n |-> IF k = n THEN y0[1] ELSE IF k = n - 1 THEN -(2 * y0[1] + y0[2] + y0[3]) ELSE y0[k]]
@@ -314,10 +326,11 @@ BuildBonded(s, lay) ==
       blk == [r \in 1..(K + 1) |-> IF r = 1 THEN [id |-> RunId(0), first |-> 1, nframes |-> NF, tf |-> FALSE]
                                    ELSE [id |-> RunId(r - 1), first |-> (r - 2) * b + 1, nframes |-> b, tf |-> FALSE]]
   IN [k |-> "fm", s |-> s, layout |-> lay, nb |-> q0.nb, nm |-> nm, mb |-> q0.mb, types |-> [i \in 1..q0.nb |-> "A"],
-      amin |-> q0.amin, astep |-> q0.astep, n |-> n, osub |-> Draw(R0, 12, 1, 2), gden |-> 0, gmin |-> 0, gstep |-> 0,
+      kdeg |-> kdeg, stepdeg |-> stepdeg, n |-> n, osub |-> osub, gden |-> 0, gmin |-> 0, gstep |-> 0,
+      nout |-> ((kdeg[n] - kdeg[1]) * osub) \div stepdeg + 1,              \* output points min, min + out_step, .. <= max
       noisy |-> q0.noisy, tf |-> q0.tf,
       inter |-> << [name |-> IF lay = 3 THEN "angle1" ELSE "dih1", bond |-> FALSE, periodic |-> lay = 4,
-                    x |-> x, y |-> y, m2num |-> m2.num, m2den |-> m2.den, udeg |-> 30 * q0.astep] >>,
+                    x |-> x, y |-> y, m2num |-> m2.num, m2den |-> m2.den, udeg |-> udeg] >>,
       b |-> b, K |-> K, rem |-> rem, con |-> Draw(R0, 8, 0, 1) = 1,
       frames |-> [f \in 1..NF |-> BFrame(s, q0, f)],
       runs |-> IF q0.tf THEN Append(blk, [id |-> "tf", first |-> 1, nframes |-> NF, tf |-> TRUE]) ELSE blk,
@@ -330,8 +343,7 @@ BGuard(q) == /\ \A f \in 1..Len(q.frames) : \A m \in 1..q.nm : MolGood(q, MolPos
              /\ q.n >= 4
              /\ \A k \in 1..q.K : \A iv \in 1..(q.n - 1) :
                    Cardinality(UNION {{SiteKey(SiteOf(q.frames[f], q, m)) :
-                                          m \in {m \in 1..q.nm : SiteInside(SiteOf(q.frames[f], q, m), q.amin + (iv - 1) * q.astep,
-                                                                            q.amin + iv * q.astep)}} :
+                                          m \in {m \in 1..q.nm : SiteInside(SiteOf(q.frames[f], q, m), q.kdeg[iv], q.kdeg[iv + 1])}} :
                                       f \in BlockFrames(q, k)}) >= 2
 
 
@@ -354,7 +366,7 @@ Guard(q) == IF q.layout >= 3 THEN BGuard(q) ELSE
 Init == ph = 0 /\ \E s \in Seed0..(Seed0 + NSeeds - 1) : inst = [k |-> "seed", s |-> s]
 Next == ph = 0 /\ ph' = 1
         /\ inst' = LET l0 == Draw(StreamN(inst.s, 32), 10, 0, 9)
-                       q  == IF l0 = 8 THEN BuildBonded(inst.s, 3) ELSE IF l0 = 9 THEN BuildBonded(inst.s, 4) ELSE Build(inst.s)
+                       q  == IF l0 \in {6, 7} THEN BuildBonded(inst.s, 3) ELSE IF l0 >= 8 THEN BuildBonded(inst.s, 4) ELSE Build(inst.s)
                    IN IF Guard(q) THEN q ELSE [k |-> "skip", s |-> inst.s]
 Spec == Init /\ [][Next]_vars
 
@@ -400,6 +412,8 @@ SplineOK   == IsInst => \A c \in 1..Len(inst.inter) :
                  IN SplineLaw(it.x, it.y, [num |-> it.m2num, den |-> it.m2den], it.periodic)
 \* bonded-only instances: molecule layout
 BondedOK   == (IsInst /\ inst.layout >= 3) => /\ inst.nb = inst.nm * inst.mb /\ Len(inst.inter) = 1
+                                              /\ \A k \in 1..inst.n : inst.kdeg[k] = inst.kdeg[1] + inst.inter[1].x[k] * inst.inter[1].udeg
+                                              /\ inst.kdeg[2] - inst.kdeg[1] = inst.stepdeg
                                               /\ \A f \in 1..Len(inst.frames) : Len(inst.frames[f].pos) = inst.nb
 EmitRec    == (Emit /\ IsInst) => PrintT(ToJson(inst))
 =============================================================================
